@@ -109,7 +109,8 @@ OV_OLLAMA = {
     "runner/ollamarunner/zz_verif_c14_handler_test.go": "runner_ollamarunner/zz_verif_c14_handler_test.go",
 }
 OV_LLAMA = {"runner/llamarunner/zz_verif_c14_test.go": "runner_llamarunner/zz_verif_c14_test.go",
-            "runner/llamarunner/zz_verif_c14_loop_test.go": "runner_llamarunner/zz_verif_c14_loop_test.go"}
+            "runner/llamarunner/zz_verif_c14_loop_test.go": "runner_llamarunner/zz_verif_c14_loop_test.go",
+            "runner/llamarunner/zz_verif_c14_llhandler_test.go": "runner_llamarunner/zz_verif_c14_llhandler_test.go"}
 
 
 def lean_str(s):
@@ -284,6 +285,16 @@ def run(ctx):
     ctx.l1(outdir, label="L1-llama-loop")
     ctx.classify(ctx.l2(outdir))
 
+    # (3c) llamarunner's own completion HTTP handler (request JSON in, streamed JSON lines out) in front of that loop
+    env = {"VERIF_N": ctx.scale(400, 6000), "VERIF_C14_PINNED": PINNED_FINDSTOP}
+    env.update(env_replay)
+    rc, out, outdir = ctx.go_test("./runner/llamarunner/", OV_LLAMA, "^TestVerifC14LlamaHandler$", env=env, timeout=2400)
+    if rc != 0:
+        ctx.violation("driver-failed", "", out[-1500:], no_input=True)
+    ctx.read_stats(outdir)
+    ctx.l1(outdir, label="L1-llama-handler")
+    ctx.classify(ctx.l2(outdir))
+
     # fail closed when a branch the theorems speak about was never exercised on the real code
     if not ctx.replay and not ctx.violations:
         need = ["cause_eos", "cause_limit", "cause_stopstring", "running", "branch_hold_stop_suffix",
@@ -293,12 +304,13 @@ def run(ctx):
                 "handler_end_at_limit", "handler_reason_length", "handler_reason_stop", "multi_reason_stop",
                 "multi_reason_length", "llama_cause_eos", "llama_cause_limit", "llama_cause_stopstring",
                 "llama_reason_running", "llama_skip_calls", "llama_pending_at_end", "llama_multi_chunk",
-                "llama_f20_dropped_bytes", "llama_cachelen_cases"]
+                "llama_f20_dropped_bytes", "llama_cachelen_cases", "llama_handler_cancelled", "llama_handler_end_at_limit",
+                "llama_handler_reason_length", "llama_handler_reason_stop"]
         missing = [k for k in need if ctx.stats.get(k, 0) <= 0]
         # floors on the size of every phase (a generator that silently shrinks must not pass)
         floors = {"cases": 10000, "exhaustive_cases": 3000, "gen_invalid": 500, "gen_valid_prefix": 8000,
                   "handler_cases": 1000, "sched_cases": 400, "multi_cases": 400, "llama_loop_cases": 1500,
-                  "llama_models": 20, "llama_gen_invalid": 100, "cachelen_cases": 5000, "llama_cachelen_cases": 1000,
+                  "llama_models": 20, "llama_handler_cases": 400, "llama_gen_invalid": 100, "cachelen_cases": 5000, "llama_cachelen_cases": 1000,
                   "stops_overlap_in_window": 100, "find_hit": 5000, "trunc_hit": 5000, "suffix_hit": 2000}
         missing += [f"{k}<{v}" for k, v in floors.items() if ctx.stats.get(k, 0) < v]
         if missing:
